@@ -157,3 +157,22 @@ Proof.
   split; [vm_compute; reflexivity|].
   split; vm_compute; reflexivity.
 Qed.
+
+(* ------------------------------------------------------------------ finding: an unsatisfied LessThan still passes up
+   the utility and the placements of children whose indicator is the constant 1 *)
+Definition flt_pt : ptab := [(1, 1, true)].
+Definition flt_e : expr :=
+  Objective 11 [LessThan 10 (LessThan 3 (Choose 1 [1] 1 4 2 1) (Choose 2 [1] 1 6 2 1))
+                            (LessThan 9 (Max 5 [Choose 4 [1] 1 8 2 1])
+                                        (LessThan 8 (Choose 6 [1] 1 0 2 1) (Choose 7 [1] 1 2 2 1)))].
+Definition flt_a : asg := asg_of
+  [(VInd 1, 1); (VAlloc 1 1, 1); (VInd 2, 1); (VAlloc 2 1, 1); (VInd 6, 1); (VAlloc 6 1, 1); (VInd 7, 1); (VAlloc 7 1, 1);
+   (VStart 5, 8)].
+
+Lemma lessthan_refuted :
+  exists pt now g e cs a, compile pt now g e = Ok cs /\ sat cs a = true /\ alignedb g e = true /\
+    lt_okb e (populate pt now a e) = false.
+Proof.
+  exists flt_pt, 0, 1, flt_e. eexists. exists flt_a.
+  split; [vm_compute; reflexivity|]. repeat split; vm_compute; reflexivity.
+Qed.
